@@ -2,9 +2,9 @@ import Csproto.Proofs.GenNested
 import Csproto.Proofs.GenRoundtrip
 /-
   Round trip with nested messages: for message types built from scalar fields and message-typed
-  fields (singular, repeated; any depth; recursive types), what the generated `Marshal` writes is a tree
-  of well-formed records, and the generated `Unmarshal` turns it back into the message.
-  (Maps and real oneofs are outside this theorem; unknown fields are carried at the top level only.)
+  fields (singular, repeated, members of real oneofs; any depth; recursive types), what the generated
+  `Marshal` writes is a tree of well-formed records, and the generated `Unmarshal` turns it back into the
+  message.  (Maps are outside this theorem; unknown fields are carried at the top level only.)
 -/
 namespace Csproto.Gen
 open Csproto Csproto.C01
@@ -181,9 +181,14 @@ end
 
 /-! ### well-formedness of schema and value -/
 
-/-- the message types this theorem covers: distinct field numbers, no real oneofs, no maps -/
+/-- the message types this theorem covers: distinct field numbers, no maps -/
 def SchemaOK (S : Schema) : Prop :=
-  ∀ i, NoDupNums (S.md i) ∧ ∀ fd ∈ S.md i, (∀ g, fd.card ≠ .oneof g) ∧ fd.card ≠ .map ∧ fd.card ≠ .always
+  ∀ i, NoDupNums (S.md i) ∧ ∀ fd ∈ S.md i, fd.card ≠ .map ∧ fd.card ≠ .always
+
+/-- at most one member of every real oneof is set -/
+def Excl (md : MD) (fs : List F) : Prop :=
+  ∀ (i j : Nat) (fdi fdj : FD) (g : Nat), md[i]? = some fdi → md[j]? = some fdj → fdi.card = .oneof g → fdj.card = .oneof g → i ≠ j →
+    fs[i]? = some F.unset ∨ fs[j]? = some F.unset
 
 mutual
 def WFs (S : Schema) : MD → List F → Prop
@@ -201,7 +206,7 @@ def WFf (S : Schema) (fd : FD) : F → Prop
     | .sc _ => ShapeOK fd (.many vs) ∧ ValOK fd (.many vs) ∧ CleanVs vs
     | .msg i => fd.card = .list ∧ ValidTag fd.num ∧ WFvs S (S.md i) vs
 def WFv (S : Schema) (md : MD) : V → Prop
-  | .msg fs unk => unk = [] ∧ WFs S md fs ∧ (wiresN (recsFields S 0 md fs)).length ≤ maxFieldLen
+  | .msg fs unk => unk = [] ∧ WFs S md fs ∧ (wiresN (recsFields S 0 md fs)).length ≤ maxFieldLen ∧ Excl md fs
   | _ => False
 def WFvs (S : Schema) (md : MD) : List V → Prop
   | [] => True
@@ -224,7 +229,7 @@ theorem scalar_kind (fd : FD) (k : SK) (h : fd.ty = .sc k) : fd.ty = .sc (kindOf
 
 theorem recV_len (S : Schema) (md : MD) (v : V) (h : WFv S md v) : (wiresN (recsV S md v)).length ≤ maxFieldLen := by
   cases v with
-  | msg fs unk => simp only [WFv] at h; simpa [recsV] using h.2.2
+  | msg fs unk => simp only [WFv] at h; simpa [recsV] using h.2.2.1
   | num _ => simp [WFv] at h
   | bs _ => simp [WFv] at h
 
@@ -279,7 +284,7 @@ theorem recV_ok (S : Schema) (hS : SchemaOK S) (md : MD) : ∀ (v : V), WFv S md
     simp only [recsV]
     have hs := hS i
     rw [← hi] at hs
-    have := recs_ok S hS md hs.1 (fun fd hfd => (hs.2 fd hfd).2.1) md fs [] rfl hwf.2.1
+    have := recs_ok S hS md hs.1 (fun fd hfd => (hs.2 fd hfd).1) md fs [] rfl hwf.2.1
     simpa using this
   | .num _, hwf, _ => by simp [WFv] at hwf
   | .bs _, hwf, _ => by simp [WFv] at hwf
@@ -299,7 +304,7 @@ end
 theorem foldN_flat (S : Schema) (md : MD) : ∀ (ws : List WRec) (st : List F × Bytes),
     foldN S md (ws.map NRec.flat) st = .ok (ws.foldl (WRec.apply md) st)
   | [], st => by simp [foldN]
-  | w :: ws, st => by simp [foldN, NRec.applyN, foldN_flat S md ws]
+  | w :: ws, st => by simp [foldN, NRec.applyN_flat, foldN_flat S md ws]
 
 theorem foldN_append (S : Schema) (md : MD) : ∀ (a b : List NRec) (st st' : List F × Bytes),
     foldN S md a st = .ok st' → foldN S md (a ++ b) st = foldN S md b st'
@@ -436,42 +441,115 @@ theorem canon_completeN (S : Schema) : ∀ (md : MD) (fs : List F) (ops : List E
 theorem set_append_here' (pre : List F) (x y : F) (rest : List F) :
     (pre ++ x :: rest).set pre.length y = pre ++ y :: rest := set_append_here pre x y rest
 
+theorem wfs_len (S : Schema) : ∀ (md : MD) (fs : List F), WFs S md fs → md.length = fs.length
+  | [], [], _ => rfl
+  | [], _ :: _, h => by simp [WFs] at h
+  | _ :: _, [], h => by simp [WFs] at h
+  | _ :: md, _ :: fs, h => by simp only [WFs] at h; simp [wfs_len S md fs h.2]
+
+theorem canonFs_length (S : Schema) : ∀ (md : MD) (fs : List F), md.length = fs.length → (canonFs S md fs).length = md.length
+  | [], [], _ => by simp [canonFs]
+  | [], _ :: _, h => by simp at h
+  | _ :: _, [], h => by simp at h
+  | _ :: md, _ :: fs, h => by simp only [canonFs, List.length_cons]; rw [canonFs_length S md fs (by simpa using h)]
+
+theorem canonFs_snoc (S : Schema) (fd : FD) (f : F) : ∀ (md : MD) (fs : List F), md.length = fs.length →
+    canonFs S (md ++ [fd]) (fs ++ [f]) = canonFs S md fs ++ [canonF S fd f]
+  | [], [], _ => by simp [canonFs]
+  | [], _ :: _, h => by simp at h
+  | _ :: _, [], h => by simp at h
+  | _ :: md, _ :: fs, h => by
+    simp only [List.cons_append, canonFs]; rw [canonFs_snoc S fd f md fs (by simpa using h)]
+
+theorem canonFs_get (S : Schema) : ∀ (md : MD) (fs : List F) (j : Nat) (fd : FD) (f : F), md.length = fs.length →
+    md[j]? = some fd → fs[j]? = some f → (canonFs S md fs)[j]? = some (canonF S fd f)
+  | [], _, _, _, _, _, h, _ => by simp at h
+  | _ :: _, [], _, _, _, h, _, _ => by simp at h
+  | fd0 :: md, f0 :: fs, 0, fd, f, _, h1, h2 => by
+    simp only [List.getElem?_cons_zero, Option.some.injEq] at h1 h2
+    subst h1; subst h2
+    simp [canonFs]
+  | _ :: md, _ :: fs, j + 1, fd, f, h, h1, h2 => by
+    simp only [List.getElem?_cons_succ] at h1 h2
+    simp only [canonFs, List.getElem?_cons_succ]
+    exact canonFs_get S md fs j fd f (by simpa using h) h1 h2
+
+theorem initField_oneof (fd : FD) (g : Nat) (h : fd.card = .oneof g) : initField fd = .unset := by
+  simp [initField, h]
+
+theorem canonF_unset (S : Schema) (fd : FD) : canonF S fd .unset = initField fd := by simp [canonF]
+
 mutual
 /-- folding the records of the remaining fields from the reset state of those fields -/
-theorem fold_fields (S : Schema) (hS : SchemaOK S) (mdAll : MD) (unk : Bytes) : ∀ (md : MD) (fs pre : List F) (ops : List EncOp),
-    (∀ fd ∈ md, ∀ g, fd.card ≠ .oneof g) → WFs S md fs → opsFields S md fs = .ok ops →
-    foldN S mdAll (recsFields S pre.length md fs) (pre ++ md.map initField, unk) = .ok (pre ++ canonFs S md fs, unk)
-  | [], [], pre, _, _, _, _ => by simp [recsFields, foldN, canonFs]
-  | [], _ :: _, _, _, _, h, _ => by simp [WFs] at h
-  | _ :: _, [], _, _, _, h, _ => by simp [WFs] at h
-  | fd :: md, f :: fs, pre, ops, hno, hwf, ho => by
+theorem fold_fields (S : Schema) (hS : SchemaOK S) (mdAll : MD) (fsAll : List F) (unk : Bytes)
+    (hlenAll : mdAll.length = fsAll.length) (hex : Excl mdAll fsAll) :
+    ∀ (md : MD) (fs : List F) (preMd : MD) (preFs : List F) (ops : List EncOp),
+    mdAll = preMd ++ md → fsAll = preFs ++ fs → preMd.length = preFs.length →
+    WFs S md fs → opsFields S md fs = .ok ops →
+    foldN S mdAll (recsFields S preMd.length md fs) (canonFs S preMd preFs ++ md.map initField, unk)
+      = .ok (canonFs S preMd preFs ++ canonFs S md fs, unk)
+  | [], [], _, _, _, _, _, _, _, _ => by simp [recsFields, foldN, canonFs]
+  | [], _ :: _, _, _, _, _, _, _, h, _ => by simp [WFs] at h
+  | _ :: _, [], _, _, _, _, _, _, h, _ => by simp [WFs] at h
+  | fd :: md, f :: fs, preMd, preFs, ops, hmd, hfs, hpl, hwf, ho => by
     simp only [WFs] at hwf
     obtain ⟨⟨a, ha⟩, ⟨b, hb⟩⟩ := opsFields_cons_ok S fd md f fs ops ho
-    have hcur : (pre ++ initField fd :: md.map initField).getD pre.length .unset = initField fd := by
-      simp [List.getD_eq_getElem?_getD]
-    have h1 := fold_field S hS mdAll pre.length fd (hno fd (by simp)) f a (pre ++ initField fd :: md.map initField) unk
-      (by simp) hcur hwf.1 ha
-    rw [set_append_here] at h1
+    have hlen2 := wfs_len S md fs hwf.2
+    have hcl := canonFs_length S preMd preFs hpl
+    have hcur : (canonFs S preMd preFs ++ initField fd :: md.map initField).getD preMd.length .unset = initField fd := by
+      rw [← hcl]; simp [List.getD_eq_getElem?_getD]
+    have hap : f ≠ .unset → AssignPlain mdAll fd preMd.length (canonFs S preMd preFs ++ initField fd :: md.map initField) := by
+      intro hset
+      apply AssignPlain.of_clean
+      · rw [hmd]; simp [hcl]
+      · intro g hg j fdj hj hgj hne
+        -- the sibling `j` is unset in the message …
+        have hidx : mdAll[preMd.length]? = some fd := by rw [hmd]; simp
+        have hfidx : fsAll[preMd.length]? = some f := by rw [hfs, hpl]; simp
+        have hun : fsAll[j]? = some F.unset := by
+          rcases hex preMd.length j fd fdj g hidx hj hg hgj (fun e => hne e.symm) with h | h
+          · rw [hfidx] at h; exact absurd (Option.some.inj h) hset
+          · exact h
+        -- … hence unset in the current state, whether already decoded or still to come
+        by_cases hlt : j < preMd.length
+        · rw [List.getElem?_append_left (by rw [hcl]; exact hlt)]
+          have h1 : preMd[j]? = some fdj := by rw [hmd, List.getElem?_append_left hlt] at hj; exact hj
+          have h2 : preFs[j]? = some F.unset := by rw [hfs, List.getElem?_append_left (by omega)] at hun; exact hun
+          rw [canonFs_get S preMd preFs j fdj .unset hpl h1 h2, canonF_unset, initField_oneof fdj g hgj]
+        · have hgt : preMd.length < j := by omega
+          rw [List.getElem?_append_right (by rw [hcl]; omega), hcl]
+          rw [hmd, List.getElem?_append_right (by omega)] at hj
+          obtain ⟨k, hk⟩ : ∃ k, j - preMd.length = k + 1 := ⟨j - preMd.length - 1, by omega⟩
+          rw [hk] at hj ⊢
+          simp only [List.getElem?_cons_succ, List.getElem?_map] at hj ⊢
+          rw [hj]; simp [initField_oneof fdj g hgj]
+    have h1 := fold_field S hS mdAll preMd.length fd f a (canonFs S preMd preFs ++ initField fd :: md.map initField) unk
+      hap (by simp [hcl]) hcur hwf.1 ha
+    rw [← hcl, set_append_here, hcl] at h1
     simp only [recsFields, List.map_cons, canonFs]
     rw [foldN_append S mdAll _ _ _ _ h1]
-    have := fold_fields S hS mdAll unk md fs (pre ++ [canonF S fd f]) b (fun x hx => hno x (by simp [hx])) hwf.2 hb
+    have := fold_fields S hS mdAll fsAll unk hlenAll hex md fs (preMd ++ [fd]) (preFs ++ [f]) b
+      (by rw [hmd]; simp) (by rw [hfs]; simp) (by simp [hpl]) hwf.2 hb
+    rw [canonFs_snoc S fd f preMd preFs hpl] at this
     simpa using this
 termination_by structural _ fs => fs
 
 /-- folding the records of one field, starting from the freshly reset field -/
-theorem fold_field (S : Schema) (hS : SchemaOK S) (mdAll : MD) (idx : Nat) (fd : FD) (hno : ∀ g, fd.card ≠ .oneof g) :
-    ∀ (f : F) (ops : List EncOp) (fs : List F) (unk : Bytes), idx < fs.length → fs.getD idx .unset = initField fd →
+theorem fold_field (S : Schema) (hS : SchemaOK S) (mdAll : MD) (idx : Nat) (fd : FD) :
+    ∀ (f : F) (ops : List EncOp) (fs : List F) (unk : Bytes), (f ≠ .unset → AssignPlain mdAll fd idx fs) →
+    idx < fs.length → fs.getD idx .unset = initField fd →
     WFf S fd f → opsField S fd f = .ok ops →
     foldN S mdAll (recsField S idx fd f) (fs, unk) = .ok (fs.set idx (canonF S fd f), unk)
-  | .unset, _, fs, unk, hlt, hcur, _, _ => by
+  | .unset, _, fs, unk, _, hlt, hcur, _, _ => by
     simp [recsField, foldN, canonF, set_getD_self fs idx _ hlt hcur]
-  | .one v, ops, fs, unk, hlt, hcur, hwf, ho => by
+  | .one v, ops, fs, unk, hap', hlt, hcur, hwf, ho => by
+    have hap := hap' (by simp)
     simp only [WFf] at hwf
     cases hty : fd.ty with
     | sc k =>
       simp only [hty] at hwf
       simp only [recsField, hty, canonF, foldN_flat]
-      rw [field_fold mdAll idx fd (.one v) fs unk hno hwf.1 hlt hcur]
+      rw [field_fold' mdAll idx fd (.one v) fs unk hap hwf.1 hlt hcur]
     | msg i =>
       simp only [hty] at hwf
       obtain ⟨hrep, _, hv⟩ := hwf
@@ -479,24 +557,25 @@ theorem fold_field (S : Schema) (hS : SchemaOK S) (mdAll : MD) (idx : Nat) (fd :
       cases hb : bytesMsgV S (S.md i) v with
       | ok body =>
         obtain ⟨cfs, hcv, hd⟩ := fold_msgV S hS (S.md i) ⟨i, rfl⟩ v body hv hb
-        simp only [recsField, hty, foldN, NRec.applyN, hd, canonF, hcv, assign_plain mdAll fs idx fd _ hno]
+        simp only [recsField, hty, foldN, NRec.applyN_msg, hd, canonF, hcv, hap.self]
         cases hc : fd.card <;> simp [hc, isRep] at hrep ⊢
       | err => rw [hb] at ho; cases ho
       | panic => rw [hb] at ho; cases ho
-  | .many vs, ops, fs, unk, hlt, hcur, hwf, ho => by
+  | .many vs, ops, fs, unk, hap', hlt, hcur, hwf, ho => by
+    have hap := hap' (by simp)
     simp only [WFf] at hwf
     cases hty : fd.ty with
     | sc k =>
       simp only [hty] at hwf
       simp only [recsField, hty, canonF, foldN_flat]
-      rw [field_fold mdAll idx fd (.many vs) fs unk hno hwf.1 hlt hcur]
+      rw [field_fold' mdAll idx fd (.many vs) fs unk hap hwf.1 hlt hcur]
     | msg i =>
       simp only [hty] at hwf
       obtain ⟨hlist, _, hvs⟩ := hwf
       simp only [opsField, hty] at ho
       have hinit : initField fd = .many [] := by simp [initField, hlist]
       rw [hinit] at hcur
-      have := fold_list S hS mdAll idx fd i hno hlist vs ops [] fs unk hlt hcur hvs ho
+      have := fold_list S hS mdAll idx fd i (fun g => by simp [hlist]) hlist vs ops [] fs unk hlt hcur hvs ho
       simpa [recsField, hty, canonF] using this
 termination_by structural f => f
 
@@ -507,7 +586,7 @@ theorem fold_msgV (S : Schema) (hS : SchemaOK S) (md : MD) (hmd : ∃ i, md = S.
   | .msg fs unk, body, hwf, hb => by
     obtain ⟨i, hi⟩ := hmd
     simp only [WFv] at hwf
-    obtain ⟨hu, hw, _⟩ := hwf
+    obtain ⟨hu, hw, _, hex⟩ := hwf
     simp only [bytesMsgV] at hb
     refine ⟨canonFs S md fs, rfl, ?_⟩
     cases ho : opsFields S md fs with
@@ -521,8 +600,8 @@ theorem fold_msgV (S : Schema) (hS : SchemaOK S) (md : MD) (hmd : ∃ i, md = S.
         have hc := recsFields_nil_canon S 0 md fs hw hr
         simp [decodeMsgN, hnr, hc, initFields]
       | cons r rest =>
-        have hfold := fold_fields S hS md [] md fs [] ops (fun fd hfd => (hs.2 fd hfd).1) hw ho
-        simp only [List.length_nil, List.nil_append] at hfold
+        have hfold := fold_fields S hS md fs [] (wfs_len S md fs hw) hex md fs [] [] ops rfl rfl rfl hw ho
+        simp only [List.length_nil, List.nil_append, canonFs, List.map_nil] at hfold
         rw [hr] at hfold
         have hinit : initFields md = md.map initField := rfl
         simp only [decodeMsgN, hinit, hfold, canon_completeN S md fs ops hw ho]
@@ -549,7 +628,7 @@ theorem fold_list (S : Schema) (hS : SchemaOK S) (mdAll : MD) (idx : Nat) (fd : 
       cases hr : opsMsgList S (S.md i) fd.num vs with
       | ok rest =>
         obtain ⟨cfs, hcv, hd⟩ := fold_msgV S hS (S.md i) ⟨i, rfl⟩ v body hwf.1 hb
-        simp only [recsList, foldN, NRec.applyN, hd, assign_plain mdAll fs idx fd _ hno, hlist, hcur, appendTo]
+        simp only [recsList, foldN, NRec.applyN_msg, hd, assign_plain mdAll fs idx fd _ hno, hlist, hcur, appendTo]
         have ih := fold_list S hS mdAll idx fd i hno hlist vs rest (acc ++ [V.msg cfs []])
           (fs.set idx (.many (acc ++ [V.msg cfs []]))) unk
           (by simpa using hlt) (by simp [List.getD_eq_getElem?_getD, List.getElem?_set_self hlt]) hwf.2 hr
@@ -599,7 +678,7 @@ end
     normalised to their field width, presence included at every level, and the unknown fields come back byte
     for byte. -/
 theorem roundtrip_nested (S : Schema) (hS : SchemaOK S) (fast : Bool) (i : Nat) (fs : List F) (urs : List Rec)
-    (ops : List EncOp) (hwf : WFs S (S.md i) fs) (hok : OKFields S (S.md i) fs)
+    (ops : List EncOp) (hwf : WFs S (S.md i) fs) (hex : Excl (S.md i) fs) (hok : OKFields S (S.md i) fs)
     (hu : ∀ r ∈ urs, r.OK ∧ findField (S.md i) r.tag 0 = none)
     (ho : opsFields S (S.md i) fs = .ok ops) :
     unmarshal S fast (S.md i) (wiresOf ops ++ Csproto.wiresOf urs)
@@ -612,14 +691,14 @@ theorem roundtrip_nested (S : Schema) (hS : SchemaOK S) (fast : Bool) (i : Nat) 
   have hoks : OKs S (S.md i) (recsFields S 0 (S.md i) fs ++ (urs.map WRec.unknown).map NRec.flat) := by
     rw [OKs_append]
     refine ⟨?_, OKs_flat S _ _ ?_⟩
-    · have := recs_ok S hS (S.md i) hs.1 (fun fd hfd => (hs.2 fd hfd).2.1) (S.md i) fs [] rfl hwf
+    · have := recs_ok S hS (S.md i) hs.1 (fun fd hfd => (hs.2 fd hfd).1) (S.md i) fs [] rfl hwf
       simpa using this
     · intro w hw
       obtain ⟨u, hum, rfl⟩ := List.mem_map.mp hw
       exact hu u hum
   rw [hbytes, unmarshal_nested S fast (S.md i) _ hoks]
-  have hfold := fold_fields S hS (S.md i) [] (S.md i) fs [] ops (fun fd hfd => (hs.2 fd hfd).1) hwf ho
-  simp only [List.length_nil, List.nil_append] at hfold
+  have hfold := fold_fields S hS (S.md i) fs [] (wfs_len S _ fs hwf) hex (S.md i) fs [] [] ops rfl rfl rfl hwf ho
+  simp only [List.length_nil, List.nil_append, canonFs, List.map_nil] at hfold
   have hall : foldN S (S.md i) (recsFields S 0 (S.md i) fs ++ (urs.map WRec.unknown).map NRec.flat)
       (initFields (S.md i), []) = .ok (canonFs S (S.md i) fs, Csproto.wiresOf urs) := by
     have hinit : initFields (S.md i) = (S.md i).map initField := rfl
